@@ -117,6 +117,28 @@ def run(index, tier="quick", seed=0) -> Result:
                             f"through that handle leaves the cache stale")
                 else:
                     res.ok("COH-5", k)
+    # CMB-1: facets are regrouped only from the hull's own (bit-identical) simplex equations
+    from ..components import HullProvenance
+    ncmb = 0
+    for cls in index.shape_classes():
+        if not cls.is_subclass_of("ConvexPolyhedron"):
+            continue
+        ents = [(n_, f_) for n_, f_, _k in mutators(index, cls)]
+        init_ = cls.lookup("__init__")
+        if isinstance(init_, FuncInfo):
+            ents.append(("__init__", init_))
+        for n_, f_ in ents:
+            hp = HullProvenance()
+            Interp(index, [hp]).run_entry(f_, cls)
+            k_ = f"{cls.name}.{n_}"
+            if hp.violations:
+                e_ = hp.violations[0]
+                res.bad("CMB-1", k_ + ":regroup-recomputed", e_.where(), f"{k_} calls _combine_simplices after the simplex equations were recomputed from the "
+                        f"vertices (path {' -> '.join(e_.path)}): the ulp-level grouping tolerance is sound only for the equations qhull returned; "
+                        "recomputed equations of coplanar triangles differ by rounding, so facets split (wrong faces, face areas, face centroids)")
+            else:
+                ncmb += 1
+    res.ok("CMB-1", "facets regrouped only from hull equations", sample={"entries_examined": ncmb})
     # COH-6: copies of a shape inherit its lazily filled caches; state written on the copy must reset them before they are read
     from ..components import CopyCache, EXTRA_CACHE_READS
     from ..index import PropInfo
